@@ -21,6 +21,7 @@ type In struct {
 	Handler      string     `json:"handler"`        // "record" | "none" | "error"
 	Updates      int        `json:"updates"`        // container updates the handler returns (first k containers)
 	UpdPad       int        `json:"upd_pad"`        // padding bytes in each returned update (a Unified entry): makes the REPLY large
+	StallAt      int        `json:"stall_at"`       // > 0: the reply to the k-th message that reaches the plugin (if it says More) comes later than the request timeout
 	ReqTimeoutMs int        `json:"req_timeout_ms"` // request timeout for this case (0 = the harness default)
 	Slack        int        `json:"slack"`          // spare capacity of the slices the runtime's SyncFn passes (0 = cap == len)
 	Limit        int        `json:"limit"`          // ttrpc's maximum message length
